@@ -467,6 +467,31 @@ func c12Run(c *core.Ctx) {
 			}
 		}
 	}
+	// self-similar identities: the eight hex digits of the 5G-TMSI equal the rendered text of the same GUTI at an earlier
+	// position (every distance 1..11 hex digits back: the TMSI repeats the PLMN digits, the AMF identifier, or its own
+	// beginning), for every PLMN of the alphabet and AMF identifiers with distinct nibbles — a conversion that finds a
+	// field by its contents instead of its position meets itself here
+	for pi, pl := range plmns {
+		if !c.Mine(pi + 7) {
+			continue
+		}
+		if !c.Begin("guti-block", "Guti", map[string]any{"plmn": pl, "self_similar": true}) {
+			continue
+		}
+		for _, amf := range []uint32{0xCAFE01, 0xABCABC, 0x123456, 0x208931, 0x000001, 0xF0E1D2} {
+			prefix := pl[0] + pl[1] + fmt.Sprintf("%06x", amf)
+			for k := 0; k < len(prefix); k++ {
+				text := []byte(prefix)
+				for i := 0; i < 8; i++ {
+					text = append(text, text[k+i])
+				}
+				var t uint32
+				fmt.Sscanf(string(text[len(prefix):]), "%08x", &t) //nolint:errcheck
+				c12GutiExec(c, c12Guti{pl[0], pl[1], amf, t})
+				n++
+			}
+		}
+	}
 	// SUCI: all routing indicators of 1..4 digits, schemes, key ids, MSIN lengths
 	u = 0
 	digits10 := "0123456789"
